@@ -59,3 +59,36 @@ Theorem C02_world_remove : forall w live issued frees e,
   pool_alive (w_pool (fst (fst r))) e = false.
 Proof. exact remove_entity_ok. Qed.
 Print Assumptions C02_world_remove.
+
+(** ** The pool code of /repo itself.  [Gen/GoEntityPool.v] is the translation of ecs/pool.go and
+    ecs/entity.go, regenerated on every run; on related states the translated Get, Recycle
+    and Alive return what the model's functions return, for every pool with fewer than
+    2^32 slots, and so does every call sequence.  The theorems above therefore speak
+    about this code. *)
+From Arche Require Import Pure.GoRt Gen.GoEntityPool Proofs.PoolTie.
+Local Open Scope nat_scope.
+Theorem C02_code_new : forall inc, (1 <= inc < 2 ^ 32)%N ->
+  exists g, go_newEntityPool inc = Ret g /\ pool_rel g pool_init.
+Proof. exact newEntityPool_tie. Qed.
+Theorem C02_code_get : forall g p live issued frees,
+  pool_rel g p -> pool_inv p live issued frees -> small p ->
+  exists g', entityPool_Get g = Ret (g', ent_go (pool_get p).2) /\ pool_rel g' (pool_get p).1.
+Proof. exact Get_tie. Qed.
+Theorem C02_code_recycle : forall g p e,
+  pool_rel g p -> eid e <> 0 -> eid e < length (p_ents p) -> (N.of_nat (p_avail p) + 1 < 2 ^ 32)%N ->
+  exists g', entityPool_Recycle g (ent_go e) = Ret g' /\ pool_rel g' (pool_recycle p e).
+Proof. exact Recycle_tie. Qed.
+Theorem C02_code_recycle_zero_panics : forall g e, eid e = 0 -> entityPool_Recycle g (ent_go e) = Panicked.
+Proof. exact Recycle_zero_panics. Qed.
+Theorem C02_code_alive : forall g p e, pool_rel g p ->
+  entityPool_Alive g (ent_go e) = match pool_alive_opt p e with Some b => Ret b | None => Panicked end.
+Proof. exact Alive_tie. Qed.
+Theorem C02_code_history : forall ops g p live issued frees s' outs,
+  pool_rel g p -> pool_inv p live issued frees ->
+  (N.of_nat (length (p_ents p) + length ops) + 1 < 2 ^ 32)%N ->
+  m_run (p, live) ops = Some (s', outs) ->
+  exists g', g_run g ops = Ret (g', map conv outs) /\ pool_rel g' (fst s') /\
+    exists issued' frees', pool_inv (fst s') (snd s') issued' frees'.
+Proof. exact pool_code_history. Qed.
+Print Assumptions C02_code_history.
+Print Assumptions C02_code_alive.
